@@ -358,14 +358,16 @@ type vpC26Conn struct {
 	w bytes.Buffer
 }
 
-func (c *vpC26Conn) Read(p []byte) (int, error)         { return c.r.Read(p) }
-func (c *vpC26Conn) Write(p []byte) (int, error)        { return c.w.Write(p) }
-func (c *vpC26Conn) Close() error                       { return nil }
-func (c *vpC26Conn) LocalAddr() net.Addr                { return &net.TCPAddr{IP: net.IPv4(127, 0, 0, 1), Port: 80} }
-func (c *vpC26Conn) RemoteAddr() net.Addr               { return &net.TCPAddr{IP: net.IPv4(127, 0, 0, 1), Port: 4321} }
-func (c *vpC26Conn) SetDeadline(time.Time) error        { return nil }
-func (c *vpC26Conn) SetReadDeadline(time.Time) error    { return nil }
-func (c *vpC26Conn) SetWriteDeadline(time.Time) error   { return nil }
+func (c *vpC26Conn) Read(p []byte) (int, error)  { return c.r.Read(p) }
+func (c *vpC26Conn) Write(p []byte) (int, error) { return c.w.Write(p) }
+func (c *vpC26Conn) Close() error                { return nil }
+func (c *vpC26Conn) LocalAddr() net.Addr         { return &net.TCPAddr{IP: net.IPv4(127, 0, 0, 1), Port: 80} }
+func (c *vpC26Conn) RemoteAddr() net.Addr {
+	return &net.TCPAddr{IP: net.IPv4(127, 0, 0, 1), Port: 4321}
+}
+func (c *vpC26Conn) SetDeadline(time.Time) error      { return nil }
+func (c *vpC26Conn) SetReadDeadline(time.Time) error  { return nil }
+func (c *vpC26Conn) SetWriteDeadline(time.Time) error { return nil }
 
 type vpC26NopLogger struct{}
 
